@@ -16,6 +16,7 @@ import sys
 import time
 
 VERIF = os.path.dirname(os.path.dirname(os.path.abspath(__file__)))
+REPO = os.environ.get("VERIF_REPO", "/repo")
 BASE = "3a3cd79"
 ENV = dict(os.environ, GOFLAGS="-mod=mod", GOPROXY="off", GOSUMDB="off", GOTOOLCHAIN="local")
 
@@ -104,15 +105,15 @@ def run(seed_id, tier, pids):
     d = os.path.join(VERIF, "seeded", seed_id)
     meta = json.load(open(os.path.join(d, "meta.json")))
     pids = pids or [meta["property"]]
-    rc, out = sh("git -C /repo status --porcelain")
+    rc, out = sh("git -C %s status --porcelain" % REPO)
     assert out.strip() == "", "/repo not clean:\n" + out
     patch = os.path.join(d, "patch.rebased.diff")
     if not os.path.exists(patch):
         patch = os.path.join(d, "patch.diff")
-    rc, out = sh("git -C /repo apply %s" % patch)
+    rc, out = sh("git -C %s apply %s" % (REPO, patch))
     if rc != 0:
         print("PATCH-DOES-NOT-APPLY", seed_id, out[-400:])
-        sh("git -C /repo reset -q --hard HEAD")
+        sh("git -C %s reset -q --hard HEAD" % REPO)
         return
     results = {}
     try:
@@ -126,7 +127,7 @@ def run(seed_id, tier, pids):
             if rc == 2:
                 print(out[-1500:])
     finally:
-        sh("git -C /repo reset -q --hard HEAD && git -C /repo clean -fdq -- internal pkg")
+        sh("git -C %s reset -q --hard HEAD && git -C %s clean -fdq -- internal pkg" % (REPO, REPO))
     return results
 
 
